@@ -294,12 +294,13 @@ func c07alloc(c *Ctx) {
 		}
 		// failure iff short
 		okFail := false
-		for _, b := range fn.Blocks {
-			ret, ok := b.Instrs[len(b.Instrs)-1].(*ssa.Return)
-			if !ok || an.IsNilConst(ret.Results[1]) {
+		for _, alt := range an.ReturnAlts(fn) {
+			ret := alt.Ret
+			_ = ret
+			if an.IsNilConst(alt.Results[1]) {
 				continue
 			}
-			for _, g := range an.Guards(ret) {
+			for _, g := range alt.Guards {
 				p := an.Path(g.Cond)
 				if g.Truth && strings.Contains(p, "builtin.len(") && strings.Contains(p, "< desiredCount") {
 					okFail = true
